@@ -194,6 +194,8 @@ def main(argv=None):
     ap.add_argument('--replay')
     ap.add_argument('--jobs', type=int, default=int(os.environ.get('VERIF_JOBS', '0')) or min(16, os.cpu_count() or 1))
     ap.add_argument('--no-evidence', action='store_true')
+    ap.add_argument('--write-witness', action='store_true',
+                    help='(maintenance) write the first case matching each listed finding to its witness file')
     a = ap.parse_args(argv)
     prop = a.prop.upper()
     try:
@@ -212,6 +214,13 @@ def main(argv=None):
         f = F.find(known, prop, v['desc'])
         if f:
             matched[f['line']] += 1
+            if a.write_witness and matched[f['line']] == 1 and f['witness'] != '-':
+                wp = os.path.join(HERE, f['witness'])
+                os.makedirs(os.path.dirname(wp), exist_ok=True)
+                with open(wp, 'w', encoding='utf-8') as fh:
+                    json.dump({'property': prop, 'phase': phase, 'runner': runner, 'case': v['case'],
+                               'descriptor': v['desc'], 'expected': v.get('expected'), 'observed': v.get('observed'),
+                               'finding': f['text']}, fh, indent=1, sort_keys=True, default=str, ensure_ascii=False)
         else:
             s = _sig(v['desc'])
             if s in unmatched:
